@@ -143,7 +143,7 @@ func H_C11_caller() {
 }
 
 //verif:witness H_C11_sequence end
-//verif:bound C11 all sequences: four log calls from four adjacent call sites in one function (fast or default mode), each record must carry its own line (modelled program counters of adjacent call sites are 5 apart, the size of a call instruction); every order of visiting two call sites five times (32 orders: revisits after another site, repeats); caller lookup switched on->off and off->on between two events through a sync logger that recycles its Event objects
+//verif:bound C11 all sequences: four log calls from four adjacent call sites in one function (fast or default mode), each record must carry its own line (modelled program counters of adjacent call sites are 5 apart, the size of a call instruction); every order of visiting two call sites five times (32 orders: revisits after another site, repeats); a call site at a line number above 65535 visited three times; caller lookup switched on->off and off->on between two events through a sync logger that recycles its Event objects
 
 var vSeqTag *Tag
 
@@ -186,8 +186,15 @@ func H_C11_sequence() {
 	logger.AppenderRefs.AppenderRefs = []*AppenderRef{{Appender: app, Level: all}}
 	tag := &Tag{tag: "_t_x", logger: logger}
 	fastCaller = vChoose("fast", 2) == 1
-	scenario := vChoose("scenario", 3)
-	if scenario == 2 {
+	scenario := vChoose("scenario", 4)
+	if scenario == 3 {
+		// a call site beyond line 65535, visited three times (cache miss, then hits)
+		enableCaller = true
+		for i := 0; i < 3; i++ {
+			want := vFarSite(tag)
+			vAssert(want > 65535 && app.appends == i+1 && app.events[i].Line == want, "far-call-site-reports-its-own-line-on-every-visit")
+		}
+	} else if scenario == 2 {
 		// every order of visiting two call sites five times (revisits after another site, repeats)
 		enableCaller = true
 		var want [5]int
@@ -229,6 +236,52 @@ func H_C11_sequence() {
 				}
 			}
 		}
+	}
+	vReach("end")
+}
+
+//go:noinline
+func vSiteA(tag *Tag) int {
+	_, _, l0, _ := runtime.Caller(0)
+	Info(context.Background(), tag, Msg("a"))
+	return l0 + 1
+}
+
+//go:noinline
+func vSiteB(tag *Tag) int {
+	_, _, l0, _ := runtime.Caller(0)
+	Warn(context.Background(), tag, Msg("b"))
+	return l0 + 1
+}
+
+//verif:witness H_C11_concurrent end
+//verif:bound C11 all two goroutines logging at the same time from two call sites through two entry points (default or fast lookup); every access to a package-level variable of the library is a scheduling point (1 pre-emptive switch): each record carries the line of its own call site
+//verif:engine-only H_C11_concurrent
+func H_C11_concurrent() {
+	vOpt("globalrace", 1)
+	vOpt("schedall", 1)
+	vOpt("preempt", 1)
+	savedEnable, savedFast := enableCaller, fastCaller
+	defer func() { enableCaller, fastCaller = savedEnable, savedFast }()
+	enableCaller = true
+	fastCaller = vChoose("fast", 2) == 1
+	all := LevelRange{MinLevel: NoneLevel, MaxLevel: MaxLevel}
+	var apps [2]*vRecAppender
+	var tags [2]*Tag
+	for g := 0; g < 2; g++ {
+		apps[g] = &vRecAppender{}
+		logger := &SyncLogger{LoggerBase: LoggerBase{Name: "l", Level: all}}
+		logger.AppenderRefs.AppenderRefs = []*AppenderRef{{Appender: apps[g], Level: all}}
+		tags[g] = &Tag{tag: "_t_x", logger: logger}
+	}
+	var want [2]int
+	done := make(chan int, 2)
+	go func() { want[0] = vSiteA(tags[0]); done <- 1 }()
+	go func() { want[1] = vSiteB(tags[1]); done <- 1 }()
+	<-done
+	<-done
+	for g := 0; g < 2; g++ {
+		vAssert(apps[g].appends == 1 && apps[g].events[0].Line == want[g], "concurrent-call-sites-report-their-own-lines")
 	}
 	vReach("end")
 }
